@@ -69,7 +69,7 @@ try:
     res['checks'] = {}
     for tier in tiers:
         t0 = time.time()
-        rc, out = run(['/verif/bin/vcheck', ID, tier], cwd='/verif', timeout=7200, extra={'VERIF_REPO': wt})
+        rc, out = run(['/verif/bin/vcheck', ID, tier], cwd='/verif', timeout=int(os.environ.get('SEED_VCHECK_TIMEOUT','1500')), extra={'VERIF_REPO': wt})
         viol = [l for l in out.splitlines() if l.startswith('VIOLATION')]
         keys = [l.strip() for l in out.splitlines() if 'key=' in l][:12]
         res['checks'][tier] = {'exit': rc, 'violation_lines': len(viol), 'keys': keys, 'wall_s': round(time.time() - t0, 1)}
